@@ -38,6 +38,11 @@ def run(tier):
         v = S.run(fname, 1)
         S.expect_unsat('implies-wf:%s' % fname, zand(v, znot(wf)), '%s(t) implies is_wellformed(t)' % fname, 1,
                        [(fname, 1), ('is_wellformed', 1)])
+    # the documented E350 rule for `[]T` as an element (known finding, see known_findings.json): reported as KNOWN-FINDING while
+    # the code accepts such types, silently gone once it does not
+    S.expect_unsat('docs-E350:array-view-as-element', zand(wf, vtref.has_view_element(a)),
+                   'E350 (docs/errors.md): `[N]T` and `[]T` need an element of compile-time size, `[]T` has none, so `[10][]u8` and '
+                   '`[][]i32` are invalid', 1, [('is_wellformed', 1)])
     void = a.is_('Void')
     for fname in ['can_be_variable', 'can_be_constant', 'can_be_parameter', 'can_be_struct_member', 'can_be_word_member']:
         S.expect_unsat('void-illegal:%s' % fname, zand(void, S.run(fname, 1)), 'void is legal only as a return type', 1, [(fname, 1)])
@@ -123,6 +128,7 @@ def run(tier):
 def finish(S, tier, extra_outside=None):
     known = known_keys(S.prop)
     out_viol = []
+    known_hits = []
     for v in S.violations:
         key = '%s:%s%s' % (v['query'], vtlib.wire(v['a']), (',' + vtlib.wire(v['b'])) if v['b'] else '')
         if v.get('key_extra'):
@@ -134,6 +140,7 @@ def finish(S, tier, extra_outside=None):
             what = '%s fails for [%s] -> native [%s] (%s)' % (v['query'], v['native_request'], v['native_answer'], v['statement'])
         if key in known or ('query:' + v['query']) in known:
             log('KNOWN-FINDING: property=%s %s' % (S.prop, what))
+            known_hits.append(v['query'])
             continue
         rp = write_replay(S.prop, key, {'property': S.prop, 'query': v['query'], 'statement': v['statement'],
                                         'a': vtlib.wire(v['a']), 'b': vtlib.wire(v['b']) if v['b'] else None,
@@ -166,6 +173,9 @@ def finish(S, tier, extra_outside=None):
         'memoised_pure_calls': int(S.ex.stats['memo_hits']),
         'outside_claim': extra_outside or [],
     }
+    nw = len([q for q in S.queries if q.get('expected') == 'sat'])
+    cov['vacuity_witnesses_sat'] = nw
+    cov['known_findings_reported'] = known_hits
     write_evidence(S.prop, tier, 'model_checking', cov, wall,
                    ['rustc nightly MIR dump (dev profile, UB-check instrumentation passes disabled)',
                     'mirsym interpreter and its std models (listed under std_models_used), validated natively on this run',
@@ -173,8 +183,6 @@ def finish(S, tier, extra_outside=None):
                     'vtref.py is the reference reading of the documented rules',
                     'generic parameter I modelled as a 16-bit token with equality only'],
                    violations=len(out_viol))
-    nw = len([q for q in S.queries if q.get('expected') == 'sat'])
-    cov['vacuity_witnesses_sat'] = nw
     log('%s: depth %d, %d queries (%d unsat%s), %d native comparisons, solver %.2fs, exec %.2fs, wall %.1fs'
         % (S.prop, S.depth, nq, cov['queries_unsat'], (', %d reachability witnesses sat as required' % nw) if nw else '',
            S.validated, S.solver_s, S.exec_s, wall))
